@@ -34,6 +34,14 @@ func genC06(o *hx.Out, tier string) {
 			fr = validFrame(r, drw, hx.RandMessage(r, proto, 2), true, key)
 		} else {
 			f := randFrame(r, true, true).(*frame.V2Frame)
+			if i == 1 || i%16 == 5 {
+				// the largest frame: 255-byte payload, signed (280 bytes on the wire)
+				p := make([]byte, 255)
+				r.Read(p)
+				p[254] |= 1
+				f.Message = &message.MessageRaw{ID: f.Message.GetID(), Payload: p}
+				f.Checksum = f.GenerateChecksum(0)
+			}
 			f.Signature = f.GenerateSignature(key)
 			fr = f
 		}
@@ -53,7 +61,12 @@ func genC06(o *hx.Out, tier string) {
 			o.Add(class, hx.ReadAll(cs, rdrw, k, nil), "fread", dn, hx.Hex(k[:]), hx.ChunksText(cs))
 		}
 		add("signed-valid", bs, key)
-		for bit := 0; bit < len(bs)*8; bit++ {
+		nbits := len(bs) * 8
+		first := 0
+		if len(bs) > 200 && tier != "thorough" {
+			first = nbits - 16 // large frames: only the last two signature bytes in the quick tier
+		}
+		for bit := first; bit < nbits; bit++ {
 			c := append([]byte(nil), bs...)
 			c[bit/8] ^= 1 << uint(bit%8)
 			add("signed-bitflip", c, key)
@@ -90,6 +103,14 @@ func genC06(o *hx.Out, tier string) {
 			key: mkKey(), dname: "common", drw: drw}
 		var msgs []message.Message
 		for j := 0; j < 1+r.Intn(6); j++ {
+			msgs = append(msgs, hx.RandMessage(r, d.Messages[r.Intn(len(d.Messages))], 2))
+		}
+		if i%5 == 1 {
+			// the largest frame a keyed writer can emit
+			p := make([]byte, 255)
+			r.Read(p)
+			p[254] |= 1
+			msgs = append(msgs, &message.MessageRaw{ID: d.Messages[r.Intn(len(d.Messages))].GetID(), Payload: p})
 			msgs = append(msgs, hx.RandMessage(r, d.Messages[r.Intn(len(d.Messages))], 2))
 		}
 		legacy := i%3 == 0
